@@ -154,6 +154,12 @@ func (p Precompile) RegisterToken(
 		return nil, fmt.Errorf("asset %s already exists", assetID)
 	}
 
+	// check this before anything is written: the error of SetStakingAssetInfo below would come after the
+	// token and its feeder have been registered with the oracle, and nothing rolls that back.
+	if asset.Decimals > assetstypes.MaxDecimal {
+		return nil, fmt.Errorf("the decimals %d of asset %s are greater than the maximum %d", asset.Decimals, assetID, assetstypes.MaxDecimal)
+	}
+
 	stakingAsset := &assetstypes.StakingAssetInfo{
 		AssetBasicInfo:     asset,
 		StakingTotalAmount: sdkmath.NewInt(0),
